@@ -89,7 +89,7 @@ class Tracker:
                         c = g.stmts[g.strip(m["cond"])]
                         if c["k"] == "DeclRefExpr" and c.get("declId") == p0:
                             th = [x for x in g.walk(m["then"]) if g.stmts[x]["k"] == "CXXThrowExpr" or
-                                  (g.stmts[x]["k"] == "CallExpr" and g.stmts[x].get("noreturn"))]
+                                  (g.stmts[x]["k"] in ("CallExpr", "CXXMemberCallExpr") and g.stmts[x].get("noreturn"))]
                             if th:
                                 res.add(d["declId"])
         return res
@@ -98,6 +98,14 @@ class Tracker:
         def atom(f_, s):
             bo = f_.binop(s)
             if bo and bo[0] in ("==", "!="):
+                for a, b in ((bo[1], bo[2]), (bo[2], bo[1])):
+                    an = f_.stmts[f_.strip(a)]
+                    if an["k"] == "CallExpr" and (an.get("callee") or "") == "std::next" and len(an.get("args", [])) >= 1:
+                        lit = len(an["args"]) == 1 or isinstance(an["args"][1], int) and \
+                            f_.stmts[f_.strip(an["args"][1])]["k"] == "CXXDefaultArgExpr"
+                        v = self.var_of(f_, an["args"][0])
+                        if v is not None and lit:
+                            return ("nx:%s" % v, bo[0] == "==")
                 for a, b in ((bo[1], bo[2]), (bo[2], bo[1])):
                     v = self.var_of(f_, a)
                     if v is not None and self.var_of(f_, b) != v:
@@ -174,12 +182,20 @@ class Tracker:
                 v, op, rhs = mod
                 modified_ever.add(v)
                 pristine = pristine - {v}
-                if op == "--":
+                back = False
+                if op == "=" and rhs is not None:
+                    r0 = f.stmts[f.strip(rhs)]
+                    back = r0["k"] == "CallExpr" and (r0.get("callee") or "") == "std::prev"
+                if op == "--" or back:
                     checked = checked | {v}
+                elif op == "++" and ("next", v) in checked:
+                    checked = (checked - {("next", v)}) | {v}       # std::next(v) was compared with the end
                 elif op == "=" and rhs is not None and self.var_of(f, rhs) in checked:
                     checked = checked | {v}
                 else:
                     checked = checked - {v}
+                if op != "++":
+                    checked = checked - {("next", v)}
                 return ((checked, pristine, assume),)
             if k == "DeclStmt":
                 for d in n["decls"]:
@@ -211,10 +227,10 @@ class Tracker:
                 if cond is not None:
                     fx = refine(f, cond, False, {}, atom)
                     for kx, vx in fx.items():
-                        if vx is True and kx.startswith("ne:"):
+                        if vx is True and kx.startswith(("ne:", "nx:")):
                             vv = kx[3:]
                             vv = int(vv) if vv != "M" else "M"
-                            checked = checked | {vv}
+                            checked = checked | ({vv} if kx.startswith("ne:") else {("next", vv)})
                     return ((checked, pristine, assume),)
                 if k == "CXXOperatorCallExpr" and n.get("op") != "()":
                     return (st,)
@@ -265,7 +281,7 @@ class Tracker:
                     o = f.stmts[f.strip(n.get("obj"))] if n.get("obj") else {}
                     if o.get("k") == "CXXThisExpr":
                         if summ is not None and "M" in summ:
-                            req, ens = summ["M"]
+                            req, ens = summ["M"][0], summ["M"][1]
                             if req:
                                 need_checked((checked, pristine), "M", sid, "%s dereferences %s before any end check" % (cal, self.member))
                             if ens == "C":
@@ -273,8 +289,10 @@ class Tracker:
                             elif ens == "U":
                                 checked = checked - {"M"}
                                 pristine = pristine - {"M"}
-                        elif summ is None and callee is None and not n.get("constMethod"):
-                            # unknown non-const method of this: may move the member iterator
+                        elif summ is None and callee is None and not n.get("constMethod") and \
+                                re.match(r"(read|treat|ignore|handle|analyse|parse|next|import|register|declare|set[A-Z].*From)", cal.rsplit("::", 1)[-1]):
+                            # a bodyless (virtual / other unit) method whose name says it consumes tokens: may move the
+                            # member iterator; other bodyless methods are assumed not to touch it (recorded assumption)
                             checked = checked - {"M"}
                             pristine = pristine - {"M"}
                 return ((checked, pristine, assume),)
@@ -304,10 +322,10 @@ class Tracker:
                 return ()
             fx = refine(f, b.cond, pol, facts, atom_all)
             for kx, vx in fx.items():
-                if vx is True and kx.startswith("ne:"):
+                if vx is True and kx.startswith(("ne:", "nx:")):
                     vv = kx[3:]
                     vv = int(vv) if vv != "M" else "M"
-                    checked = checked | {vv}
+                    checked = checked | ({vv} if kx.startswith("ne:") else {("next", vv)})
             inside = set(f.walk(b.cond))
             assume = frozenset(a for a in assume if a[0] not in inside)
             return ((checked, pristine, assume),)
